@@ -4,7 +4,7 @@
    parameter API modelled in ElemState.v.  Explicit stack, explicit errors, fuel for termination,
    a depth budget for Python's recursion limit.  Model only. *)
 From Coq Require Import ZArith QArith Bool List.
-From PV Require Import Base.Num Base.Outcome Circuit.ElemState Circuit.Tree Circuit.Token.
+From PV Require Import Base.Float53 Base.Num Base.Outcome Circuit.ElemState Circuit.Tree Circuit.Token.
 Import ListNotations.
 
 (* ParsingError subclasses, numbered *)
@@ -51,7 +51,7 @@ Definition push_stack (x : sk) (p : pst) : pst := mkPS (ptoks p) (x :: pstack p)
 (* ---- numbers of a parameter definition -------------------------------------------------------------- *)
 Definition xmul_div100 (v l : xnum) : xnum :=      (* value * limit / 100 on finite numbers *)
   match v, l with
-  | Fin a, Fin b => Fin (Qred (a * b / 100))
+  | Fin a, Fin b => Fin (fl53 (fl53 (a * b) / 100))     (* two correctly rounded binary64 operations *)
   | NaN, _ | _, NaN => NaN
   | _, _ => NaN                                     (* infinities do not occur: numbers come from finite tokens, saturated ones are excluded by the generator *)
   end.
